@@ -398,22 +398,47 @@ Theorem C20_lazy_request_url_refuted :
 Proof. exact lazy_request_url_refuted. Qed.
 Print Assumptions C20_lazy_request_url_refuted.
 
-(* F-C20-4 (open): Event.Request is the live request, so $request_host shows the host a host=
-   route option wrote into it; outside that region all request-side fields are as received *)
+(* F-C20-4, REPAIRED in /repo by 5d3ea07: $request_host printed Event.Request.Host, i.e. the host a
+   host= route option wrote into the live request; the theorem is about [render_field_unrepaired]
+   and states what the repaired renderer prints on the same Event *)
 Theorem C20_request_host_rewritten_refuted :
-  exists r o, sv_request_host (serve_event r o) <> ir_host r /\
-              up_host (sv_request_url (serve_event r o)) = ir_host r.
+  exists r o s,
+    render_field_unrepaired FRequestHost (event_of r (serve_event r o) s) = Ok (bs "127.0.0.1:5000") /\
+    ir_host r = bs "example.com" /\
+    render_field FRequestHost (event_of r (serve_event r o) s) = Ok (ir_host r) /\
+    sv_request_host (serve_event r o) = bs "127.0.0.1:5000".
 Proof. exact request_host_rewritten_refuted. Qed.
 Print Assumptions C20_request_host_rewritten_refuted.
 
-Theorem C20_request_side_on_domain : forall r o,
-  region_host_rewritten r o = false ->
-  request_side_as_received r (sv_request_url (serve_event r o)) (sv_request_host (serve_event r o)) = true.
-Proof. exact request_side_on_domain. Qed.
-Print Assumptions C20_request_side_on_domain.
+(* every RENDERED request-side field ($request, $request_args, $request_host, $request_method,
+   $request_scheme, $request_uri, $request_url, $request_proto) of the Event ServeHTTP builds is
+   what a logger that saw only the request as received would print: it depends on the request
+   alone, for all requests and all route options; the same for whole lines *)
+Theorem C20_rendered_request_fields_as_received : forall r o s f,
+  In f request_fields ->
+  render_field f (event_of r (serve_event r o) s) = render_field f (received_event r s).
+Proof. exact rendered_request_fields_as_received. Qed.
+Print Assumptions C20_rendered_request_fields_as_received.
 
-Theorem C20_request_side_on_domain_nonvacuous :
-  region_host_rewritten (ex_inreq (bs "https")) (ex_ropt []) = false /\
-  region_host_rewritten (ex_inreq []) (ex_ropt (bs "dst")) = true.
-Proof. exact request_side_on_domain_nonvacuous. Qed.
-Print Assumptions C20_request_side_on_domain_nonvacuous.
+Theorem C20_rendered_request_fields_depend_only_on_request : forall r o1 o2 s f,
+  In f request_fields ->
+  render_field f (event_of r (serve_event r o1) s) = render_field f (event_of r (serve_event r o2) s).
+Proof. exact rendered_request_fields_depend_only_on_request. Qed.
+Print Assumptions C20_rendered_request_fields_depend_only_on_request.
+
+Theorem C20_rendered_request_line_as_received : forall r o s p,
+  Forall request_item p ->
+  pattern_write p (event_of r (serve_event r o) s) = pattern_write p (received_event r s).
+Proof. exact rendered_request_line_as_received. Qed.
+Print Assumptions C20_rendered_request_line_as_received.
+
+Theorem C20_request_format_is_request_side :
+  exists p, new_logger request_format = Ok p /\ Forall request_item p.
+Proof. exact request_format_is_request_side. Qed.
+Print Assumptions C20_request_format_is_request_side.
+
+Theorem C20_rendered_line_example :
+  log_line request_format (event_of (ex_inreq (bs "https")) (serve_event (ex_inreq (bs "https")) (ex_ropt (bs "dst"))) (bs "https://example.com/foo"))
+  = Ok (bs "GET /foo HTTP/1.1||example.com|GET|https|/foo|https://example.com/foo|HTTP/1.1" ++ [10]).
+Proof. exact rendered_line_example. Qed.
+Print Assumptions C20_rendered_line_example.
